@@ -5,6 +5,7 @@
 
 mod engine;
 mod props;
+mod special;
 mod strategies;
 
 use engine::Tier;
@@ -48,7 +49,20 @@ fn main() {
         eprintln!("unknown property {id}");
         std::process::exit(2);
     };
-    let r = engine::run_property(def, tier, seed, cases, workers);
+    let r = match def.id {
+        "C17" => special::run_c17(tier, seed, workers),
+        "C18" => {
+            let mut r = engine::run_property(def, tier, seed, cases, workers);
+            if r.failures.is_empty() {
+                let p = special::run_c18_primitives(tier, seed, workers);
+                r.stats.merge(p.stats);
+                r.failures.extend(p.failures);
+                r.wall_s += p.wall_s;
+            }
+            r
+        }
+        _ => engine::run_property(def, tier, seed, cases, workers),
+    };
     let mut seen = std::collections::HashSet::new();
     let mut n_viol = 0;
     for f in &r.failures {
@@ -80,7 +94,7 @@ fn main() {
         tier,
         seed,
         r.stats.evaluations,
-        r.stats.nontrivial.len(),
+        r.stats.nontrivial.len() as u64 + r.stats.nontrivial_counted,
         r.stats.steps,
         r.wall_s,
         n_viol
